@@ -94,6 +94,7 @@ def install(ctx, repo, probes):
         probes.set(cls, "__setattr__", make(cls))
     ctx.current_step = None
     ctx.budget = core.Budget(repo.path)
+    ctx.target("compare-order/0", "compare-order/1", "compare-order/2")
     ctx.target("alias/result-is-operand", "alias/shared-time-zone",
                "kind/TimePoint", "kind/Duration", "kind/TimeZone",
                "kind/TimeRecurrence", "kind/truncated")
@@ -444,6 +445,21 @@ class Program:
         # can print it (str(p, override...) cannot)
         self.add(repo.TimePoint(**dict(base, year=-44,
                                        dump_format="YY-MM-DDThh:mm")))
+        # one instant in the New-Year week, held in all three representations
+        # (the week-year differs from the calendar year), each with a format
+        # of its own that spells a literal offset
+        for hh, zone in ((3, "+05:30"), (22, "-03:00")):
+            tail = {"hour_of_day": hh, "time_zone_hour": 0,
+                    "time_zone_minute": 0}
+            self.add(repo.TimePoint(
+                year=2019, month_of_year=12, day_of_month=30,
+                dump_format="CCYY-MM-DDThh:mm" + zone, **tail))
+            self.add(repo.TimePoint(
+                year=2020, week_of_year=1, day_of_week=1,
+                dump_format="CCYY-Www-DThh:mm" + zone, **tail))
+            self.add(repo.TimePoint(
+                year=2019, day_of_year=364,
+                dump_format="CCYY-DDDThh:mm" + zone, **tail))
         # series bounded only by the min_point / max_point keywords
         a = repo.TimePoint(**dict(base, year=2001))
         day = repo.Duration(days=1)
@@ -562,7 +578,16 @@ class Program:
 
     def compare_all(self, full):
         ctx = self.ctx
-        for o in self.pool:
+        order = list(self.pool)
+        if full:
+            # looking at the values in another order must not matter either
+            self.passes = getattr(self, "passes", 0) + 1
+            if self.passes % 3 == 1:
+                order.reverse()
+            elif self.passes % 3 == 2:
+                random.Random(self.passes).shuffle(order)
+            ctx.cls("compare-order/%d" % (self.passes % 3))
+        for o in order:
             old = self.full.get(id(o))
             if old is None:
                 continue
